@@ -16,13 +16,14 @@ Lemma ready_records_eq : forall r,
   ready_records r = map REnt (if 0 <? r_n r then range (r_first r - 1) (r_last r) else []) ++ (if r_hs r then [RState (r_commit r)] else []).
 Proof. reflexivity. Qed.
 
-Lemma ready_ok_spec : forall s r, ready_ok s r = true ->
+Lemma ready_ok_spec : forall s r, r_snap r = 0 -> ready_ok s r = true ->
   (0 < r_n r -> r_first r = rs_last s + 1 /\ r_last r + 1 = r_first r + r_n r /\ (wstate s = true \/ r_hs r = true))
   /\ (0 < r_cn r -> r_cfirst r = published s + 1 /\ r_clast r + 1 = r_cfirst r + r_cn r
                     /\ r_clast r <= rlast s r /\ r_clast r <= (if r_hs r then r_commit r else hcommit s))
   /\ (r_hs r = true -> hcommit s <= r_commit r /\ last_commit (all_recs (segs s)) <= r_commit r /\ r_commit r <= rlast s r).
 Proof.
-  intros s r H. unfold ready_ok in H. unfold rlast.
+  intros s r Hs0 H. unfold ready_ok in H. unfold rlast. rewrite Hs0 in H. change (0 <? 0) with false in H. cbv iota in H.
+  apply andb_true_iff in H. destruct H as [H _].
   apply andb_true_iff in H. destruct H as [H H3]. apply andb_true_iff in H. destruct H as [H1 H2].
   split; [|split].
   - intros Hn. destruct (0 <? r_n r) eqn:Q; [|lia].
@@ -37,20 +38,22 @@ Proof.
     destruct (0 <? r_n r); repeat split; lia.
 Qed.
 
-Lemma step_rd_begin : forall c s s' r, Inv c s -> step c s (EvRdBegin r) = Ok s' -> Inv c s'.
+Lemma step_rd_begin : forall c s s' r, r_snap r = 0 -> Inv c s -> step c s (EvRdBegin r) = Ok s' -> Inv c s'.
 Proof.
-  intros c s s' r HI H. start_step H hi HP HV.
+  intros c s s' r Hs0 HI H. start_step H hi HP HV.
   apply negb_false_iff in E0. apply negb_false_iff in E1. rewrite E0 in HV.
-  destruct (ready_ok_spec _ _ E1) as [R1 [R2 R3]].
+  destruct (ready_ok_spec _ _ Hs0 E1) as [R1 [R2 R3]].
   exists hi. split.
-  - destruct HP. constructor; proj; auto. lia.
+  - destruct HP. constructor; proj; auto. rewrite Hs0. change (0 <? 0) with false. cbv iota. lia.
   - proj. unfold running in *. proj. destruct (rc s) eqn:R; try discriminate.
     vinv_split HV. unfold rd_inv in *. proj. rewrite E in v_rd. destruct v_rd as [Hhi Hpub].
     unfold rlast in *. proj.
-    split; [split|split; [split; [|split; [|split]]|split]].
+    split; [split; [|split]|split; [split; [|split; [|split]]|split]].
     + intros Hn. destruct (R1 Hn) as [A [B _]]. repeat split; auto.
+      rewrite Hs0. change (0 <? 0) with false. cbv iota.
       assert (Q : (0 <? r_n r) = true) by lia. rewrite Q. lia.
     + intros Hn. apply R2. exact Hn.
+    + exact Hs0.
     + exact Hhi.
     + intros Hn. apply R1. exact Hn.
     + intros Hh. destruct (R3 Hh) as [_ [A B]]. split; auto.
@@ -62,6 +65,7 @@ Qed.
 Lemma step_rd_save_before : forall c s s', Inv c s -> step c s EvRdSaveBefore = Ok s' -> Inv c s'.
 Proof.
   intros c s s' HI H. start_step H hi HP HV.
+  2:{ rd_unreachable HV E. }
   exists hi. split; [pframe s|].
   unfold running in *. proj. destruct (rc s) eqn:R; try (not_running HV).
   vinv_split HV. unfold rd_inv, pubcl in *. proj. rewrite E in v_rd. exact v_rd.
@@ -99,7 +103,7 @@ Proof. intros. apply nth_app_tail_first. Qed.
 
 Lemma pinv_last_entry : forall s hi, PInv s hi -> last_entry (all_recs (segs s)) = hi.
 Proof.
-  intros s hi P. eapply last_entry_chain; [apply (p_chain _ _ P)|].
+  intros s hi P. eapply last_entry_chain; [apply (p_local _ _ P) | apply (p_chain _ _ P)|].
   pose proof (p_first _ _ P) as F. pose proof (pinv_newest_le_hi _ _ P) as L.
   unfold lo_of, hd_first in *. lia.
 Qed.
@@ -191,7 +195,7 @@ Lemma pinv_flush : forall s s' hi,
   PInv s' hi.
 Proof.
   intros s s' hi P Es Eu Esf Eck Eac Epr.
-  destruct P as [C Ha Hp Ht Hh Hcm Hni Hf Hfile Hz Hnd Hfl Hck].
+  destruct P as [C Ha Hp Ht Hh Hcm Hni Hf Hfile Hz Hnd Hfl Hck Hloc].
   destruct Ht as [pre [sl [body [tl [Ess [Esl [Etl [Hst Hhead]]]]]]]].
   constructor; rewrite ?Es, ?Esf, ?Eck, ?Eac, ?Epr, ?Eu; auto.
   - exists pre, sl, (body ++ tl), []. rewrite app_nil_r. repeat split; auto.
@@ -289,22 +293,24 @@ Proof.
   specialize (Hf ltac:(lia)). lia.
 Qed.
 
-Lemma step_rd_publish : forall c s s' n lastp, fixed c -> Inv c s -> step c s (EvRdPublish n lastp) = Ok s' -> Inv c s'.
+Lemma step_rd_publish : forall c s s' n lastp sn, fixed c -> Inv c s -> step c s (EvRdPublish n lastp sn) = Ok s' -> Inv c s'.
 Proof.
-  intros c s s' n lastp [Hfx _] HI H. start_step H hi HP HV. norm_guards.
+  intros c s s' n lastp sn [Hfx _] HI H. start_step H hi HP HV. norm_guards.
   match goal with G : persist_first c && overlap r && negb sv = false |- _ => rewrite Hfx in G; simpl in G; rename G into Gov end.
   exists hi. split; [pframe s|].
   unfold running in *. proj. destruct (rc s) eqn:R; try (not_running HV).
   pose proof HV as HV0. destruct HV0 as [v_rd _ _ _ _ _ _ _ _ _ _ _ _ _ _ _].
   unfold rd_inv in v_rd. rewrite E in v_rd.
+  assert (Hs0 : r_snap r = 0) by (destruct sv; destruct v_rd as [[_ [_ X]] _]; exact X).
+  rewrite Hs0. change (0 <? 0) with false. cbv iota.
   assert (Hpubge : published s <= (if 0 <? r_cn r then r_clast r else published s)
                    /\ (if 0 <? r_cn r then r_clast r else published s) <= hi
                    /\ (sv = true -> (if 0 <? r_cn r then r_clast r else published s) <= last_commit (all_recs (segs s)))).
   { destruct HV. destruct sv.
-    - destruct v_rd as [[F1 F2] [[Shi Sc] [Pl Pp]]]. unfold pubcl in Pp. destruct Pp as [Pp1 Pp2].
+    - destruct v_rd as [[F1 [F2 F3]] [[Shi Sc] [Pl Pp]]]. unfold pubcl in Pp. destruct Pp as [Pp1 Pp2].
       destruct (0 <? r_cn r) eqn:Qc; [|repeat split; auto; lia].
       specialize (F2 ltac:(lia)). specialize (Sc ltac:(lia)). specialize (Pp2 ltac:(lia)). repeat split; auto; lia.
-    - destruct v_rd as [[F1 F2] [[Uhi [Uw [Uh Uc]]] [Pp Pov]]]. unfold pubcl in Pp. destruct Pp as [Pp1 Pp2].
+    - destruct v_rd as [[F1 [F2 F3]] [[Uhi [Uw [Uh Uc]]] [Pp Pov]]]. unfold pubcl in Pp. destruct Pp as [Pp1 Pp2].
       destruct (0 <? r_cn r) eqn:Qc; [|split; [lia|]; split; [lia|]; intros; discriminate].
       assert (Ho : overlap r = false) by (destruct (overlap r); simpl in Gov; [discriminate | reflexivity]).
       pose proof (overlap_false_clast s r Ho ltac:(lia) (fun h => proj1 (F1 h)) (F2 ltac:(lia))).
@@ -319,8 +325,8 @@ Proof.
       * intros _. destruct (overlap r); simpl in Gov; [discriminate | reflexivity].
   - destruct v_done as [D1 [D2 D3]]. repeat split; lia.
   - apply Forall_app. split.
-    + eapply Forall_impl; [|exact v_queue]. simpl. intros b [Hb|Hb]; [left; exact Hb | right; lia].
-    + constructor; [|constructor]. simpl. destruct (0 <? r_cn r) eqn:Qc; [right; lia | left; lia].
+    + eapply Forall_impl; [|exact v_queue]. simpl. intros b [[Hb|Hb] Hb0]; (split; [|exact Hb0]); [left; exact Hb | right; lia].
+    + constructor; [|constructor]. simpl. split; [|reflexivity]. destruct (0 <? r_cn r) eqn:Qc; [right; lia | left; lia].
   - lia.
   - destruct (app s); try assumption. destruct v_app as [A1 [A2|A2]]; split; auto. right. lia.
 Qed.
@@ -328,10 +334,11 @@ Qed.
 Lemma step_rd_append_after : forall c s s', Inv c s -> step c s EvRdAppendAfter = Ok s' -> Inv c s'.
 Proof.
   intros c s s' HI H. start_step H hi HP HV. norm_guards.
+  2:{ rd_unreachable HV E. }
   exists hi. split; [pframe s|].
   unfold running in *. proj. destruct (rc s) eqn:R; try (not_running HV).
   pose proof HV as HV0. destruct HV0 as [v_rd _ _ _ _ _ _ _ _ _ _ _ _ _ _ _].
-  unfold rd_inv in v_rd. rewrite E in v_rd. destruct v_rd as [[F1 F2] [[Shi Sc] [Pl Pp]]].
+  unfold rd_inv in v_rd. rewrite E in v_rd. destruct v_rd as [[F1 [F2 F3]] [[Shi Sc] [Pl Pp]]].
   destruct (v_done _ _ _ HV) as [D1 [D2 D3]].
   vinv_split HV.
   - unfold rd_inv. proj. unfold rlast in Shi. split; [exact Shi | exact Pl].
@@ -343,14 +350,17 @@ Qed.
 
 (* ---------- the apply loop ---------- *)
 
-Lemma step_ap_before : forall c s s' a n, Inv c s -> step c s (EvApBefore a n) = Ok s' -> Inv c s'.
+Lemma step_ap_before : forall c s s' a n sn, Inv c s -> step c s (EvApBefore a n sn) = Ok s' -> Inv c s'.
 Proof.
-  intros c s s' a n HI H. start_step H hi HP HV. norm_guards.
+  intros c s s' a n sn HI H. start_step H hi HP HV; norm_guards.
+  { (* a batch that carries a snapshot: not in the queue of a replica that never gets one *)
+    exfalso. rewrite E1 in HV. destruct HV. rewrite E0 in v_queue. inversion v_queue as [|x y [_ X] Y]; subst.
+    rewrite X in E3. discriminate. }
   exists hi. split; [pframe s|].
   unfold running in *. proj. destruct (rc s) eqn:R; try discriminate.
   vinv_split HV.
   - rewrite E0 in v_queue. inversion v_queue; assumption.
-  - rewrite E in v_app. rewrite E0 in v_queue. inversion v_queue; subst. split; assumption.
+  - rewrite E in v_app. rewrite E0 in v_queue. inversion v_queue as [|x y [X1 X2] Y]; subst. split; assumption.
 Qed.
 
 Lemma step_ap_after : forall c s s' a, Inv c s -> step c s (EvApAfter a) = Ok s' -> Inv c s'.
